@@ -139,8 +139,15 @@ def concurrency_pass(cases, rnd, res, field):
         by_fmt.setdefault(c.fmt, []).append(c)
     sample = []
     for fmt, lst in sorted(by_fmt.items()):
-        sample += lst[:16 if fmt in ('png', 'ppm', 'svg', 'iterv') else 8]
+        sample += lst[:40 if fmt in ('ppm', 'iterv') else 24 if fmt in ('png', 'svg') else 8]
     sample = sample[: len(sample) - len(sample) % 8]
+    # groups that repeat TWO calls of different symbol sizes (a memo of "the last size" written in two steps serves the other size)
+    for fmt in ('ppm', 'iterv', 'png', 'svg'):
+        lst = by_fmt.get(fmt, [])
+        for g in range(min(6, len(lst) // 2)):
+            a, b = lst[2 * g], lst[2 * g + 1]
+            if len(a.q.matrix) != len(b.q.matrix):
+                sample += [a, b, a, b, b, a, b, a]
     calls = [((c.make, c.fmt), c.kw) for c in sample]
     ctx = multiprocessing.get_context('fork')
     with ctx.Pool(1) as pool:
